@@ -25,15 +25,19 @@ def deep_round_factory(tol):
       elif isinstance(j, (str, unicode, type(BaseException()))): continue
       elif isinstance(j, dict): _args[i] = dict(zip(j.keys(), deep_round(*j.values())[0])) # keys need not be str
       elif isiterable(j): #XXX: fails on the above, so don't iterate them
+        if iter(j) is j: continue # don't consume an iterator
         jtype = type(j)
-        _args[i] = jtype(deep_round(*j)[0])
+        try: _args[i] = getattr(jtype, '_make', jtype)(deep_round(*j)[0])
+        except Exception: pass # can't be rebuilt (e.g. range), so don't round
     for i,j in kwds.items():
       if isinstance(j, float): _kwds[i] = round(j, tol)
       elif isinstance(j, (str, unicode, type(BaseException()))): continue
       elif isinstance(j, dict): _kwds[i] = dict(zip(j.keys(), deep_round(*j.values())[0])) # keys need not be str
       elif isiterable(j): #XXX: fails on the above, so don't iterate them
+        if iter(j) is j: continue # don't consume an iterator
         jtype = type(j)
-        _kwds[i] = jtype(deep_round(*j)[0])
+        try: _kwds[i] = getattr(jtype, '_make', jtype)(deep_round(*j)[0])
+        except Exception: pass # can't be rebuilt (e.g. range), so don't round
     return argstype(_args), _kwds
   return deep_round
 
